@@ -57,10 +57,10 @@ def split_by_daemon(path):
     return files
 
 
-def validate(module, cfg, files, tag):
+def validate(module, cfg, files, tag, env=None):
     def one(i_path):
         i, path = i_path
-        return core.tlc_trace(module, cfg, path, "%s-%d" % (tag, i))
+        return core.tlc_trace(module, cfg, path, "%s-%d" % (tag, i), env=env)
     with ThreadPoolExecutor(max_workers=min(6, len(files))) as ex:
         return list(ex.map(one, enumerate(files)))
 
